@@ -34,14 +34,17 @@ def lossless(tag, bw, t, tsize, isf):
         return "(x)" if t in ("double", "float") else None
     return None
 
+LM = 5
+QUICK_CFG = ("pcm_u8", "pcm_16le", "pcm_24be", "pcm_32le", "float_le", "double_be", "ulaw", "alaw")
+
 def sg_harnesses(sel_list=("SEL_RD", "SEL_WR"), quick_types=None):
     out = []
     for tag, f, init, fmt, bw, be in SG:
         for t, tn, tsize, isf in TYPES:
             for sel in sel_list:
                 d = {"CODEC_FILE": '"%s"' % f, "CODEC_INIT": init, "FMT": fmt, "BW": bw, "BE": be, "T": t, "TN": tn, "NDT": tn,
-                     "IS_FLOAT_T": isf, sel: 1, "LMAX": 7, "MF_CAP": 7 * bw + 3, "MF_MAXIO": 56, "MF_NFILES": 2,
-                     "LIBSNDFILE_VERIF_BUFFER_LEN": 24}
+                     "IS_FLOAT_T": isf, sel: 1, "LMAX": LM, "MF_CAP": LM * bw + 3, "MF_MAXIO": LM * 8, "MF_NFILES": 2,
+                     "LIBSNDFILE_VERIF_BUFFER_LEN": 8}
                 m = lossless(tag, bw, t, tsize, isf)
                 if sel == "SEL_FAULT":
                     d["MF_FAULTY"] = 1
@@ -49,9 +52,9 @@ def sg_harnesses(sel_list=("SEL_RD", "SEL_WR"), quick_types=None):
                 d["RT_MASK(x)"] = m or "(x)"
                 heavy = isf and sel == "SEL_WR" and tag.startswith("pcm")
                 out.append(H("sg.%s.%s.%s" % (tag, tn, sel[4:]), "L3/sg_codec.c", link=["common"], stubs=["psf_log_printf", "psf_memset"],
-                             defines=d, unwind=12, unwindset=["psf_fread.0:57", "psf_fwrite.0:57", "psf_memset.0:65"] + ["main.%d:%d" % (i, 7 * bw + 5) for i in range(14)],
+                             defines=d, unwind=8, unwindset=["psf_fread.0:%d" % (LM * 8 + 1), "psf_fwrite.0:%d" % (LM * 8 + 1), "psf_memset.0:65"] + ["main.%d:%d" % (i, LM * bw + 5) for i in range(14)],
                              checks="mem", include_env=("log_stub", "memfile", "memset_model"), timeout=600, solver="cadical" if isf else "default",
-                             tiers=("thorough",) if heavy else ("quick", "thorough"),
+                             tiers=("thorough",) if (heavy or tag not in QUICK_CFG) else ("quick", "thorough"),
                              functions=[init, "%s read_%s/write_%s entry points and array kernels" % (f, tn, tn)],
-                             bounds="1 channel, request 1..7 items over a 24-byte staging buffer (crosses up to 7 staging boundaries), split point j symbolic, file length symbolic (incl. truncated mid-sample), all sample values"))
+                             bounds="1 channel, request 1..5 items over an 8-byte staging buffer (crosses staging boundaries for every width > 1 byte), split point j symbolic, file length symbolic (incl. truncated mid-sample), all sample values"))
     return out
